@@ -203,6 +203,15 @@ func (e *Evidence) Plan(c *Ctx) []hist.TxSpec {
 			}
 		}
 	}
+	// the validator that was found guilty first, released and staked again is accused and found guilty once more
+	if e.n == 26 || e.n == 34 {
+		if s0 := Susp(c.S, gen[0].ValAddr.String()); s0 != nil && !s0.IsFrozen() && active(gen[0]) && active(gen[2]) && active(gen[3]) {
+			r := &allegReq{id: fmt.Sprintf("%s-z-%d", e.Tag, c.H), target: gen[0], plan: "guilty", created: c.H, voted: map[string]bool{}}
+			e.reqs = append(e.reqs, r)
+			out = append(out, e.allege(c, gen[3], r, "second allegation against the validator that was found guilty and released before"))
+			return out
+		}
+	}
 	// a validator unstakes to just below the minimum and is accused in the same block: the block end that purges
 	// it from the set is the one that finds it guilty
 	if e.n == 30 || e.n == 41 {
